@@ -41,6 +41,7 @@ type Op struct {
 	StartPrice string  `json:"start_price,omitempty"`
 	MinPrice   string  `json:"min_price,omitempty"`
 	StartK     int     `json:"start_k,omitempty"`
+	ZeroStart  bool    `json:"zero_start,omitempty"` // start_time left out of the message (the zero time)
 	EndK       int     `json:"end_k,omitempty"`
 	Sched      []Sched `json:"sched,omitempty"`
 	MaxExt     uint32  `json:"max_ext,omitempty"`
@@ -168,6 +169,13 @@ func parseCoinsLoose(s string) sdk.Coins {
 	return out
 }
 
+func (o Op) startTime() time.Time {
+	if o.ZeroStart {
+		return time.Time{}
+	}
+	return world.Instant(o.StartK)
+}
+
 func (o Op) schedules() []ftypes.VestingSchedule {
 	var vs []ftypes.VestingSchedule
 	for _, s := range o.Sched {
@@ -183,14 +191,14 @@ func (o Op) Msg(w *world.World) sdk.Msg {
 		return &ftypes.MsgCreateFixedPriceAuction{
 			Auctioneer: msgAddr(o.Signer), StartPrice: mustDec(o.StartPrice), SellingCoin: parseCoinLoose(o.Sell),
 			PayingCoinDenom: o.PayDenom, VestingSchedules: o.schedules(),
-			StartTime: world.Instant(o.StartK), EndTime: world.Instant(o.EndK),
+			StartTime: o.startTime(), EndTime: world.Instant(o.EndK),
 		}
 	case "create_batch":
 		return &ftypes.MsgCreateBatchAuction{
 			Auctioneer: msgAddr(o.Signer), StartPrice: mustDec(o.StartPrice), MinBidPrice: mustDec(o.MinPrice),
 			SellingCoin: parseCoinLoose(o.Sell), PayingCoinDenom: o.PayDenom, VestingSchedules: o.schedules(),
 			MaxExtendedRound: o.MaxExt, ExtendedRoundRate: mustDec(o.Rate),
-			StartTime: world.Instant(o.StartK), EndTime: world.Instant(o.EndK),
+			StartTime: o.startTime(), EndTime: world.Instant(o.EndK),
 		}
 	case "cancel":
 		return &ftypes.MsgCancelAuction{Auctioneer: msgAddr(o.Signer), AuctionId: o.AID}
